@@ -547,7 +547,7 @@ func init() {
 		Rule: "entry sequences over the path universe {a, a/b, a/b/c, d} (spelled a, ./a, /a, a/) x kinds {file: 2 contents x modes 0644/0444/0000/0755/0600/0400; dir 0755/0555/0700/0711/0500/0000; link; hard link, fifo, device; global PAX header}: " +
 			"exhaustive to length 2 (quick) / 3 (thorough) x {USTAR, PAX, GNU} x {root, uid 65534}; PRNG sequences to length 12 incl. long / non-ASCII names, odd mtimes, fractional PAX mtimes; unsupported-type entries inserted at every position. " +
 			"non-trivial = >=2 entries, or an explicit tar format; distinct = entry list x format x privilege",
-		Assumptions: []string{"no claim when Unpack returns an error, except that conflict-free representable sequences must succeed and unsupported types must fail", "implicit parent directories: only existence is compared", "symlink mtimes are not compared", "the destination root's own metadata is not compared"},
+		Assumptions: []string{"no claim when Unpack returns an error, except that conflict-free representable sequences must succeed and unsupported types must fail", "hostile names, links without target, links led out of the root and header records below non-directories make a sequence undefined for this property (they belong to C01 / C04)", "implicit parent directories: only existence is compared", "symlink mtimes are not compared", "the destination root's own metadata is not compared"},
 		Phases:      append(c15Phases(false), c15Phases(true)...),
 	})
 }
